@@ -270,6 +270,14 @@ class TenSym(PySym):
             return Ten((len(items),) + sh, [e for i in items for e in i.data])
         raise Unsupported("array from %s" % type(v).__name__)
 
+    def pyval(self, v):
+        """constants as python ints where possible (arguments of model methods, list indices)"""
+        if isinstance(v, Rat):
+            c = v.const_value()
+            if c is not None and c.denominator == 1:
+                return int(c)
+        return v
+
     def unwrap(self, t):
         return t.data[0] if isinstance(t, Ten) and t.shape == () else t
 
@@ -480,6 +488,8 @@ class TenSym(PySym):
                 if isinstance(k, (int, slice)):
                     return base[k]
                 base = self.to_ten(base)
+            if isinstance(base, str):
+                return base[self.key(n.slice)]
             if isinstance(base, Ten):
                 return self.getitem(base, self.key(n.slice))
             if isinstance(base, dict):
@@ -515,7 +525,23 @@ class TenSym(PySym):
         if isinstance(op, (ast.Is, ast.IsNot)):
             r = a is b or (a is None and b is None)
             return r if isinstance(op, ast.Is) else not r
-        conc = (int, str, bool, type(None), tuple)
+        if (isinstance(a, Obj) or isinstance(b, Obj)) and isinstance(op, (ast.Eq, ast.NotEq)):
+            return (a is b) if isinstance(op, ast.Eq) else (a is not b)
+        if (isinstance(a, Ten) and isinstance(b, str)) or (isinstance(a, str) and isinstance(b, Ten)):
+            if isinstance(op, (ast.Eq, ast.NotEq)):
+                return isinstance(op, ast.NotEq)
+        if isinstance(a, Ten) or isinstance(b, Ten):
+            ta, tb = self.to_ten(self.lift(a)), self.to_ten(self.lift(b))
+            sh = bshape(ta.shape, tb.shape)
+            ta, tb = bcast(ta, sh), bcast(tb, sh)
+            out = []
+            for x, y in zip(ta.data, tb.data):
+                cx, cy = x.const_value(), y.const_value()
+                if cx is None or cy is None:
+                    raise Unsupported("comparison of symbolic values: %s" % (src(n) if n is not None else "?"))
+                out.append(Rat(Poly.const(int(self.compare(op, cx, cy)))))
+            return Ten(sh, out)
+        conc = (int, str, bool, type(None), tuple, list)
         if isinstance(a, Rat) and a.const_value() is not None:
             a = a.const_value()
         if isinstance(b, Rat) and b.const_value() is not None:
@@ -608,7 +634,11 @@ class TenSym(PySym):
         cn = call_name(n) or ""
         last = cn.split(".")[-1]
         # ---- methods on evaluated receivers
-        if isinstance(n.func, ast.Attribute) and not cn.startswith(("np.", "numpy.", "math.", "warnings.")) and cn not in self.models and cn not in self.funcs:
+        root = n.func
+        while isinstance(root, ast.Attribute):
+            root = root.value
+        module_call = isinstance(root, ast.Name) and root.id not in self.env        # np.x(...), itertools.x(...), md.x(...): a module function, not a method of a value
+        if isinstance(n.func, ast.Attribute) and not module_call and cn not in self.models and cn not in self.funcs:
             recv = self.ex(n.func.value)
             m = n.func.attr
             if isinstance(recv, (list, tuple)) and m in ("sum", "mean", "prod", "reshape", "transpose", "astype", "dot", "max", "min"):
@@ -648,8 +678,15 @@ class TenSym(PySym):
             if isinstance(recv, Obj):
                 f = getattr(recv, m, None)
                 if callable(f):
-                    return f(*[self.ex(a) for a in n.args])
+                    return f(*[self.pyval(self.ex(a)) for a in n.args])
                 raise Unsupported("method %s of a model object" % m)
+            if isinstance(recv, list) and m in ("append", "extend"):
+                v = self.ex(n.args[0])
+                if m == "append":
+                    recv.append(v)
+                else:
+                    recv.extend(self.iterate(v))
+                return None
             if isinstance(recv, str) and m in ("lower", "upper"):
                 return getattr(recv, m)()
             raise Unsupported("method call %s" % src(n)[:50])
@@ -848,6 +885,35 @@ class TenSym(PySym):
             raise Unsupported("isinstance on a symbolic value")
         if cn in ("ensure_type",):
             return A(0)
+        if cn in ("sorted", "min", "max", "reversed", "set", "abs") and cn != "abs":
+            if cn in ("min", "max") and len(n.args) > 1:
+                vals = [self.pyval(self.ex(a)) for a in n.args]
+            else:
+                vals = [self.pyval(x) for x in self.iterate(A(0))]
+            if cn == "reversed":
+                return list(reversed(vals))
+            if any(isinstance(v, (Rat, Ten, Obj)) for v in vals):
+                raise Unsupported("%s of symbolic values" % cn)
+            if cn == "sorted":
+                rev = self.kw(n, "reverse", None, False)
+                if any(k.arg == "key" for k in n.keywords):
+                    raise Unsupported("sorted with a key function")
+                return sorted(vals, reverse=bool(rev))
+            if cn == "set":
+                return sorted(set(vals))
+            return min(vals) if cn == "min" else max(vals)
+        if cn in ("any", "all"):
+            vals = [self.truth(x) for x in self.iterate(A(0))]
+            return any(vals) if cn == "any" else all(vals)
+        if cn in ("itertools.product", "product"):
+            import itertools as _it
+            return list(_it.product(*[self.iterate(self.ex(a)) for a in n.args]))
+        if cn in ("np.all", "np.any"):
+            t = self.to_ten(A(0))
+            cs = [x.const_value() for x in t.data]
+            if any(c is None for c in cs):
+                raise Unsupported("%s of symbolic values" % cn)
+            return all(c != 0 for c in cs) if cn == "np.all" else any(c != 0 for c in cs)
         if cn in ("sum",):
             tot = Rat(Poly.const(0))
             for x in self.iterate(A(0)):
@@ -964,6 +1030,12 @@ class TenSym(PySym):
     class _Return(Exception):
         pass
 
+    class _Break(Exception):
+        pass
+
+    class _Continue(Exception):
+        pass
+
     def run(self, stmts, stop=None):
         try:
             for s in stmts:
@@ -1004,6 +1076,9 @@ class TenSym(PySym):
                 return
             if isinstance(s.value, ast.Call) and (call_name(s.value) or "").split(".")[-1] in ("warn", "write", "print"):
                 return
+            if isinstance(s.value, ast.Call) and isinstance(s.value.func, ast.Attribute) and s.value.func.attr in ("append", "extend"):
+                self.ex(s.value)
+                return
             raise Unsupported("expression statement %s" % src(s)[:40])
         elif isinstance(s, ast.If):
             try:
@@ -1028,9 +1103,24 @@ class TenSym(PySym):
             else:
                 self.block(s.orelse)
         elif isinstance(s, ast.For):
+            broke = False
             for item in self.iterate(self.ex(s.iter)):
                 self.bind(s.target, item)
-                self.block(s.body)
+                try:
+                    self.block(s.body)
+                except TenSym._Continue:
+                    continue
+                except TenSym._Break:
+                    broke = True
+                    break
+            if not broke:
+                self.block(s.orelse)
+        elif isinstance(s, ast.Continue):
+            raise TenSym._Continue()
+        elif isinstance(s, ast.Break):
+            raise TenSym._Break()
+        elif isinstance(s, (ast.Import, ast.ImportFrom)):
+            return
         elif isinstance(s, (ast.Pass, ast.Assert)):
             return
         elif isinstance(s, ast.Raise):
